@@ -48,7 +48,13 @@ impl Node {
             ..Default::default()
         };
         std::fs::create_dir_all(dir.join("hm")).map_err(|e| e.to_string())?;
-        let ancient = if freezer { Some(dir.join("ancient")) } else { None };
+        let ancient = if freezer {
+            // the real node's config layer creates the ancient directory (the lock file is opened before the files)
+            std::fs::create_dir_all(dir.join("ancient")).map_err(|e| e.to_string())?;
+            Some(dir.join("ancient"))
+        } else {
+            None
+        };
         let mut builder = SharedBuilder::new("ckb", dir, &db_config, ancient, rt.unwrap_or_else(runtime), consensus)
             .map_err(|e| format!("open db: exit code {e:?}"))?
             .header_map_tmp_dir(Some(dir.join("hm")));
